@@ -136,7 +136,7 @@ def set_term(s, names):
     return f"(mkSS {names[s['table']]} {sp} {zlit(s['total_bytes'])} {zlit(s['total_rows'])} {zlit(s['target'])})"
 
 
-def eval_defs(defs, tag, per=25, req=None):
+def eval_defs(defs, tag, per=40, req=None):
     """defs[i] defines qv_case_<i> : list bool in a per-shard prelude (the shared `cs := [...]` list of
     vlib.coq_eval_list then only holds names); shards run in parallel."""
     from concurrent.futures import ThreadPoolExecutor
@@ -221,10 +221,10 @@ def run(ctx):
     if consts != PINNED:
         print(f"NOTE: property=C11 split constants in {SPLITS_RS} changed: {consts} (model pinned {PINNED}); "
               f"the run uses the values read from the source, the theorems hold for all values")
-    n = ctx.n(300, 20000)
+    n = ctx.n(300, 6000)
     cases = [gen_case(ctx.rng, consts) for _ in range(n)]
     cases += [gen_case(ctx.rng, consts, big=True) for _ in range(ctx.n(3, 60))]
-    ndup = ctx.n(30, 800)
+    ndup = ctx.n(30, 300)
     cases += [gen_case(ctx.rng, consts, dup=True) for _ in range(ndup)]
     if not proved:
         cases += [gen_case(ctx.rng, consts) for _ in range(600)]
